@@ -52,6 +52,25 @@ def extract():
     for k in ("MAX_SUPPORTED_MAJOR", "HELLO_API_MAJOR", "HELLO_API_MINOR"):
         if k not in out:
             raise TranslationError(f"connection.py: {k} not found")
+    # the back-off expression of reconnect_logic.py: tries = min(self._tries, CAP); wait = int(round(min(BASE ** tries, MAX)))
+    rtree = ast.parse((PKG / "reconnect_logic.py").read_text())
+    for node in ast.walk(rtree):
+        if isinstance(node, ast.Assign) and len(node.targets) == 1 and isinstance(node.targets[0], ast.Name):
+            tgt, val = node.targets[0].id, node.value
+            if tgt == "tries" and isinstance(val, ast.Call) and ast.unparse(val.func) == "min" and len(val.args) == 2 \
+                    and ast.unparse(val.args[0]) == "self._tries":
+                out["BACKOFF_TRIES_CAP"] = literal(val.args[1], "min(self._tries, .)")
+            if tgt == "wait_time":
+                txt = ast.unparse(val)
+                import re
+                m = re.fullmatch(r"int\(round\(min\(([0-9.]+) \*\* tries, ([0-9.]+)\)\)\)", txt)
+                if not m:
+                    raise TranslationError(f"reconnect_logic.py: back-off expression outside the grammar: {txt}")
+                out["BACKOFF_BASE"] = Fraction(m.group(1))
+                out["BACKOFF_MAX"] = Fraction(m.group(2))
+    for k in ("BACKOFF_TRIES_CAP", "BACKOFF_BASE", "BACKOFF_MAX"):
+        if k not in out:
+            raise TranslationError(f"reconnect_logic.py: {k} not found")
     # the keep-alive timeout must be interval * ratio, the default interval must be KEEP_ALIVE_FREQUENCY
     if "self._keep_alive_timeout = keepalive * KEEP_ALIVE_TIMEOUT_RATIO" not in src:
         raise TranslationError("connection.py: keep alive timeout is not keepalive * KEEP_ALIVE_TIMEOUT_RATIO")
@@ -73,7 +92,8 @@ def generate():
         body += f"Definition {n} : Z := {coq_Z(v.numerator)}.\n"
     r = c["KEEP_ALIVE_TIMEOUT_RATIO"]
     body += f"Definition KEEP_ALIVE_RATIO_NUM : Z := {coq_Z(r.numerator)}.\nDefinition KEEP_ALIVE_RATIO_DEN : Z := {coq_Z(r.denominator)}.\n"
-    for n in ("MAXIMUM_BACKOFF_TRIES", "MAX_SUPPORTED_MAJOR", "HELLO_API_MAJOR", "HELLO_API_MINOR"):
+    body += f"Definition BACKOFF_BASE_NUM : Z := {coq_Z(c['BACKOFF_BASE'].numerator)}.\nDefinition BACKOFF_BASE_DEN : Z := {coq_Z(c['BACKOFF_BASE'].denominator)}.\n"
+    for n in ("BACKOFF_TRIES_CAP", "BACKOFF_MAX", "MAXIMUM_BACKOFF_TRIES", "MAX_SUPPORTED_MAJOR", "HELLO_API_MAJOR", "HELLO_API_MINOR"):
         if c[n].denominator != 1:
             raise TranslationError(f"{n} is not an integer")
         body += f"Definition {n} : Z := {coq_Z(c[n].numerator)}.\n"
